@@ -28,6 +28,7 @@ import (
 
 	"github.com/rulego/streamsql/aggregator"
 	"github.com/rulego/streamsql/condition"
+	"github.com/rulego/streamsql/logger"
 	"github.com/rulego/streamsql/types"
 	"github.com/rulego/streamsql/utils/cast"
 	"github.com/rulego/streamsql/utils/fieldpath"
@@ -432,7 +433,7 @@ func (gw *GlobalWindow) Start() {
 				if !ok {
 					return
 				}
-				gw.processRow(row)
+				gw.processRowSafe(row)
 			case <-tickChan:
 				gw.reapIdleKeys(time.Now())
 			case <-gw.ctx.Done():
@@ -440,6 +441,18 @@ func (gw *GlobalWindow) Start() {
 			}
 		}
 	}()
+}
+
+// processRowSafe contains a panic raised while one row is aggregated (a user-defined aggregate
+// function, a trigger predicate): the row is lost, the window goroutine — and with it the process —
+// keeps running and later rows are processed.
+func (gw *GlobalWindow) processRowSafe(row types.Row) {
+	defer func() {
+		if r := recover(); r != nil {
+			logger.GetDefault().Error("global window: panic recovered while processing a row: %v", r)
+		}
+	}()
+	gw.processRow(row)
 }
 
 // processRow updates one group's running aggregate, evaluates the trigger, and
